@@ -415,7 +415,7 @@ class Extractor:
                 last = getattr(self, "_last_if", None)
                 if (isinstance(s, ast.If) and not s.orelse and s.body and isinstance(s.body[-1], (ast.Continue, ast.Break))
                         and last is not None and last[0] is s and not last[3]):
-                    self.frames.append(("py", last[1], last[2], "skip"))
+                    self.frames.append(("py", last[1], last[2], "skip", s.lineno))
                     pushed += 1
         finally:
             for _ in range(pushed):
